@@ -2,7 +2,7 @@
    Proofs/C03.v or Proofs/C03_w.v; Print Assumptions beneath each. *)
 From Coq Require Import List NArith ZArith Bool.
 Import ListNotations.
-Require Import Verif.Lib.Wire Verif.Gen.Facts_C03 Verif.Model.C03 Verif.Proofs.C03 Verif.Proofs.C03_w.
+Require Import Verif.Lib.Wire Verif.Gen.Facts_C03 Verif.Model.C03 Verif.Proofs.C03 Verif.Proofs.C03_w Verif.Proofs.C03_acc.
 
 (* The outcome of the lookup is one the declarative specification allows: the body that runs
    belongs to a qualifying candidate (name, classifier, interfaces in the two resolution
@@ -149,3 +149,82 @@ Theorem C03_pred_not : forall rq p,
   eval_pred rq (PNot p) = if nonempty (pred_phash p) then negb (eval_pred rq p) else eval_pred rq p.
 Proof. exact pred_not. Qed.
 Print Assumptions C03_pred_not.
+
+Theorem C03_pred_accept : forall rq values,
+  eval_pred rq (PAccept values) = true <-> exists o, In o values /\ (0 < offer_q rq o)%N.
+Proof. exact pred_accept. Qed.
+Print Assumptions C03_pred_accept.
+
+Theorem C03_pred_path_info : forall rq pat,
+  eval_pred rq (PPathInfo pat) = regex_match (q_regex rq) pat (q_upath rq).
+Proof. exact pred_path_info. Qed.
+Print Assumptions C03_pred_path_info.
+
+(* the winner characterised directly (same hypotheses as the partial theorem, minus reg_wf): a
+   qualifying candidate than which none is more specific and, inside its slot, none has a smaller order *)
+Theorem C03_lookup_winner_char_partial : forall ao regs cls rq,
+  NoDup (map key regs) -> no_accept regs ->
+  NoDup (q_req_sro rq) -> NoDup (q_ctx_sro rq) -> order_respects regs ->
+  match call_view (register_all ao regs) cls rq with
+  | Ran t => exists x, In x regs /\ r_tag x = t /\ candidate cls rq x = true
+                       /\ forall w, In w regs -> candidate cls rq w = true ->
+                                     more_specific rq w x = false
+                                     /\ (r_slot x = r_slot w -> (r_order x <= r_order w)%Z)
+  | _ => forall w, In w regs -> candidate cls rq w = false
+  end.
+Proof. exact lookup_winner_char. Qed.
+Print Assumptions C03_lookup_winner_char_partial.
+
+(* registering the same views in another order: Not Found stays Not Found; a different winner is
+   another registration of the same slot with the same order *)
+Theorem C03_lookup_order_insensitive_partial : forall ao regs regs' cls rq,
+  Permutation.Permutation regs regs' ->
+  NoDup (map key regs) -> no_accept regs ->
+  NoDup (q_req_sro rq) -> NoDup (q_ctx_sro rq) -> order_respects regs ->
+  match call_view (register_all ao regs) cls rq, call_view (register_all ao regs') cls rq with
+  | Ran t, Ran t' => exists x x', In x regs /\ In x' regs /\ r_tag x = t /\ r_tag x' = t'
+                                  /\ r_slot x = r_slot x' /\ r_order x = r_order x'
+  | Ran _, _ | _, Ran _ => False
+  | _, _ => True
+  end.
+Proof. exact lookup_order_insensitive. Qed.
+Print Assumptions C03_lookup_order_insensitive_partial.
+
+(* after any sequence of MultiView.add calls in which the order is a function of the phash,
+   views and every media subset are sorted by order and hold one entry per phash *)
+Theorem C03_multiview_sorted : forall (f : text -> Z) (adds : list add_args),
+  Forall (fun a => let '(_, order, phash, _, _) := a in order = f phash) adds ->
+  mv_sorted f (fold_left mv_add_args adds mv_empty).
+Proof. exact multiview_sorted. Qed.
+Print Assumptions C03_multiview_sorted.
+
+(* full strength, no hypothesis (accept=, overrides, phash collisions included): the body that runs
+   belongs to a registration of the looked-up classifier and view name, made for interfaces of the
+   two resolution orders, whose predicates all hold for the request *)
+Theorem C03_ran_is_registered_and_qualifies : forall ao regs cls rq t,
+  call_view (register_all ao regs) cls rq = Ran t ->
+  exists x, In x regs /\ r_tag x = t /\ qualifies rq x = true
+            /\ s_cls (r_slot x) = cls /\ s_name (r_slot x) = q_view_name rq
+            /\ In (s_req (r_slot x)) (q_req_sro rq) /\ In (s_ctx (r_slot x)) (q_ctx_sro rq).
+Proof. exact ran_is_registered_and_qualifies. Qed.
+Print Assumptions C03_ran_is_registered_and_qualifies.
+
+(* accept-aware, MultiView level: media subsets of exactly the acceptable offers by non-increasing
+   quality, each sorted by order, then the views without accept=; first qualifying entry runs *)
+Theorem C03_acceptable_offers_spec : forall rq offers,
+  (forall o, In o (acceptable_offers rq offers) <-> In o offers /\ (0 < offer_q rq (o_full o))%N)
+  /\ Sorted.StronglySorted (fun a b => (offer_q rq (o_full b) <= offer_q rq (o_full a))%N) (acceptable_offers rq offers).
+Proof. exact acceptable_offers_spec. Qed.
+Print Assumptions C03_acceptable_offers_spec.
+
+Theorem C03_multiview_tried_order : forall f m rq,
+  mv_sorted f m ->
+  get_views m rq = (match mv_accepts m with
+                    | [] => []
+                    | _ => flat_map (subset_of m) (acceptable_offers rq (mv_accepts m))
+                    end) ++ mv_views m
+  /\ (forall o, list_ok f (subset_of m o))
+  /\ list_ok f (mv_views m)
+  /\ mv_call rq (get_views m rq) = option_map r_tag (find (qualifies rq) (map e_view (get_views m rq))).
+Proof. exact multiview_tried_order. Qed.
+Print Assumptions C03_multiview_tried_order.
